@@ -11,7 +11,7 @@ from . import pdagg  # noqa: F401  (registers the aggregate model)
 from . import sortedindex  # noqa: F401  (registers the sorted-index model)
 from . import rowwise  # noqa: F401  (registers the row-wise model)
 from .engine import Run, _Break, _Continue, _Return
-from .values import (SArr, UNDEF, MaybeUnbound, PathDead, SBoundLib, SClass, SEnumMember, SExcClass, SFunc, SIdx,
+from .values import (SArr, UNDEF, MaybeUnbound, PathDead, SBoundLib, SClass, SEnumMember, SExcClass, SFunc, SIdx, SLogger, SLoggerMethod,
                      SLib, SObj, SOpaque, SSel, SSeq, SStr, SVec, SymRaise, Undefined, Unsupported,
                      is_num, is_z3, to_fraction, to_real, to_z3)
 
@@ -323,7 +323,9 @@ class Interp:
     def s_Assert(self, st, frame):
         c = self.truth(self.eval(st.test, frame), st)
         if not self.run.branch(c):
-            raise SymRaise("AssertionError", node=st, bases=("AssertionError", "Exception"))
+            e = SymRaise("AssertionError", node=st, bases=("AssertionError", "Exception"))
+            e.code_assertion = f"{frame.module.relpath}:{getattr(st, 'lineno', '?')}" if frame.module.is_repo else None
+            raise e
 
     def s_If(self, st, frame):
         c = self.truth(self.eval_test(st.test, frame), st.test)
@@ -460,8 +462,10 @@ class Interp:
                 self.assign(st.target, vec.elem, frame)
             try:
                 self.exec_block(st.body, frame)
-            except (_Break, _Continue):
-                raise Unsupported("break/continue inside an element-wise loop", st)
+            except _Continue:
+                pass    # the rest of the body is skipped for THIS element; the other elements are unaffected
+            except _Break:
+                raise Unsupported("break inside an element-wise loop", st)
         finally:
             frame.locals["__loop_idx__"].pop()
         if st.orelse:
@@ -840,6 +844,8 @@ class Interp:
             params = [p.arg for p in f.func.node.args.args]
             return _Super(f.locals[params[0]], f.func.owner)
         fn = self.eval(node.func, frame)
+        if isinstance(fn, SLoggerMethod):
+            return self.call_log_sink(fn, node, frame)
         args = []
         for a in node.args:
             if isinstance(a, ast.Starred):
@@ -863,6 +869,20 @@ class Interp:
             else:
                 kwargs[k.arg] = self.eval(k.value, frame)
         return self.call(fn, args, kwargs, node, frame)
+
+    def call_log_sink(self, fn, node, frame):
+        """logger.debug(...) / warnings.warn(...): the arguments are evaluated (an exception they raise is the program's), what cannot be
+        evaluated symbolically is skipped -- a log record has no effect on the results"""
+        for a in list(node.args) + [k.value for k in node.keywords]:
+            try:
+                self.eval(a.value if isinstance(a, ast.Starred) else a, frame)
+            except Unsupported:
+                self.run.assumptions.add("[log] an argument of a logging call was not evaluated (assumed free of side effects and exceptions)")
+        if fn.name in ("isEnabledFor", "getEffectiveLevel", "hasHandlers"):
+            return SOpaque(f"logger.{fn.name}()")
+        if fn.name in ("getChild", "getLogger"):
+            return SLogger()
+        return None
 
     # ================================================================ operations
     def truth(self, v, node=None):
@@ -918,6 +938,17 @@ class Interp:
             la = list(l) if isinstance(l, (list, tuple)) else [l] * n
             ra = list(r) if isinstance(r, (list, tuple)) else [r] * n
             return SArr(self.compare(op, a, b, node, frame) for a, b in zip(la, ra))
+        if isinstance(op, (ast.Eq, ast.NotEq)) and type(l) is type(r) and type(l) in (tuple, list) and any(is_z3(x) for x in list(l) + list(r)):
+            # sequences with symbolic elements compare element by element (Python would compare the z3 TERMS structurally)
+            if len(l) != len(r):
+                same = False
+            else:
+                same = True
+                for a, b in zip(l, r):
+                    same = self._and(same, True if a is b else self.compare(ast.Eq(), a, b, node, frame))
+            if isinstance(op, ast.Eq):
+                return same
+            return (not same) if isinstance(same, bool) else z3.Not(same)
         for side in (l, r):
             if hasattr(side, "sym_compare"):
                 return side.sym_compare(self, op, l, r, node)
@@ -1180,7 +1211,12 @@ class Interp:
             consts = getattr(libmodels, "LIB_CONSTANTS", {})
             if d2 in consts:
                 return consts[d2]
+            if d2 in ("logging.getLogger", "warnings.warn", "logging.debug", "logging.info", "logging.warning", "logging.error", "logging.exception",
+                      "logging.critical", "logging.log", "warnings.warn_explicit"):
+                return SLoggerMethod(name)
             return SLib(d)
+        if isinstance(obj, SLogger):
+            return SLoggerMethod(name)
         if isinstance(obj, SExcClass) and name == "__name__":
             return obj.name
         if hasattr(obj, "sym_getattr"):
